@@ -1,5 +1,6 @@
 import Driver.Sexp
 import Pcore.Model.LoaderSeq
+import Pcore.Model.LoaderTS
 /-! Driver op for C12: `hist (tree NODE*) (steps STEP*)` — syntax and output format in harness/c12/c12.go. -/
 namespace C12
 open Sx Pcore.LoaderSeq
@@ -35,7 +36,7 @@ def treeOf (nodes : List Sexp) : Option (List (Option Nat)) :=
     | .list [.atom "st"] :: rest => if i = 0 then (go 1 rest).map (none :: ·) else none
     | .list [.atom kind, p] :: rest => do
       let pi ← p.int?
-      if kind ≠ "p" ∧ kind ≠ "f" then none
+      if kind ≠ "p" ∧ kind ≠ "f" ∧ kind ≠ "ts" then none
       else if pi < -1 ∨ pi ≥ (i : Int) then none
       else if kind = "f" ∧ pi < 0 then none
       else
@@ -56,6 +57,32 @@ def keyPred (p : String) (key : Key) : Bool :=
   | "qual" => hasColons (parts.headD "").toList
   | "type" => (parts.tail.headD "") == "type"
   | _ => true
+
+/-- the fixed type set of every `(ts P)` node (harness/c12: `typeSetSrc`) -/
+def theTypeSet : TypeSet := { name := "my", members := [("foo", .al "My::Foo" 1), ("bar", .al "My::Bar" 2)] }
+
+def tsTable (nodes : List Sexp) : List (Option TypeSet) :=
+  nodes.map fun nd => match nd with
+    | .list [.atom "ts", _] => some theTypeSet
+    | _ => none
+
+/-- a type-set loader is a leaf, sits on a real node, and not directly on a static node 0 -/
+def tsShapeOK (nodes : List Sexp) (ps : List (Option Nat)) (st : Bool) : Bool :=
+  let tss := tsTable nodes
+  (ps.zip tss).all fun (p, t) =>
+    (match p with | some q => (tss.getD q none).isNone | none => true) &&
+    (match t, p with
+     | some _, none => false
+     | some _, some q => !(st && q == 0)
+     | none, _ => true)
+
+/-- a name and its forms relative to the type set `My` (My::My::Foo, My::Foo, Foo) -/
+def relForms : Nat → Name → List Name
+  | 0, n => [n]
+  | f + 1, n =>
+    match (stripColons n.name).toList.map lowerChar with
+    | 'm' :: 'y' :: ':' :: ':' :: _ => n :: relForms f { n with name := String.ofList ((stripColons n.name).toList.drop 4) }
+    | _ => [n]
 
 def hasStatic : List Sexp → Bool
   | .list [.atom "st"] :: _ => true
@@ -131,10 +158,19 @@ def exec : List Sexp → String
       | none => "bad-op"
       | some ops =>
         let st := hasStatic nodes
-        if !(ops.all (addressOK st)) then "bad-op"
+        if !(ops.all (addressOK st)) || !tsShapeOK nodes ps st then "bad-op"
         else
           let s0 := if st then (Sys.init ps).setEnts 0 (staticEnts ops) else Sys.init ps
-          let (s, as) := run s0 ops
+          -- every discovery predicate is restricted to the names of the line (with a type-set loader: also to their forms
+          -- relative to the type set), as in the harness
+          let anyTS := (tsTable nodes).any Option.isSome
+          let univ := (ops.flatMap fun o => match o with
+            | .load _ n | .define _ n _ | .has _ n | .get _ n => if anyTS then relForms 8 n else [n]
+            | .discover _ _ => []).map canon
+          let ops := ops.map fun o => match o with
+            | .discover l p => Op.discover l (fun k => univ.contains k && p k)
+            | o => o
+          let (s, as) := runT (tsTable nodes) s0 ops
           " ; ".intercalate (as.map ansStr) ++ " |" ++ dump s
   | _ => "bad-op"
 
